@@ -3,17 +3,18 @@
 property it breaks (plus --extra), undo it straight afterwards. Results go to seeded/<name>/check_result.json."""
 import subprocess, sys, os, json, time
 V = os.path.dirname(os.path.dirname(os.path.abspath(__file__)))
+REPO = os.environ.get("VERIF_REPO", "/repo")  # a scratch worktree for sweeps that must not touch /repo (check.sh honours it too)
 def sh(cmd): return subprocess.run(cmd, shell=True, capture_output=True, text=True)
 names = [a for a in sys.argv[1:] if not a.startswith("--")]
 opts = dict(a[2:].split("=", 1) for a in sys.argv[1:] if a.startswith("--"))
 tier = opts.get("tier", "quick")
-assert sh("git -C /repo status --porcelain").stdout.strip() == "", "/repo not clean"
+assert sh(f"git -C {REPO} status --porcelain").stdout.strip() == "", REPO + " not clean"
 for n in sorted(os.listdir(f"{V}/seeded")):
     if names and not any(n.startswith(x) for x in names): continue
     d = f"{V}/seeded/{n}"
     meta = json.load(open(f"{d}/meta.json"))
     props = [meta["property"]] + [x for x in opts.get("extra", "").split(",") if x]
-    a = sh(f"git -C /repo apply {d}/patch.diff")
+    a = sh(f"git -C {REPO} apply {d}/patch.diff")
     if a.returncode != 0:
         print(n, "PATCH DOES NOT APPLY", a.stderr); continue
     res = {}
@@ -24,6 +25,6 @@ for n in sorted(os.listdir(f"{V}/seeded")):
             oracles = sorted(set(l.split(":")[0][3:] for l in r.stdout.splitlines() if l.startswith("-- ")))
             res[p] = dict(exit=r.returncode, oracles=oracles, wall_s=round(time.time() - t, 1), stderr_tail=r.stderr[-300:] if r.returncode == 2 else "")
     finally:
-        sh("git -C /repo checkout -- . && git -C /repo clean -fdq")
+        sh(f"git -C {REPO} checkout -- . && git -C {REPO} clean -fdq")
     json.dump(dict(tier=tier, results=res), open(f"{d}/check_result.json", "w"), indent=1)
     print(n, {p: (v["exit"], v["oracles"]) for p, v in res.items()}, flush=True)
